@@ -167,6 +167,21 @@ pub fn type_table() -> Vec<TypeCase> {
             cat(&[u16be(65535), plain.clone(), svc(1, &cs(b"h3")), svc(2, &[])]),
             cat(&[u16be(1), plain.clone(), svc(5, &bytes(5, 2)), svc(6, &[0x20, 1, 0x0d, 0xb8, 0, 0, 0, 0, 0, 0, 0, 0, 0, 0, 0, 1])]),
             cat(&[u16be(1), plain.clone(), svc(667, b"hello\xd2\"qoo\\;( )"), svc(65280, &[])]),
+            // list-valued parameters: three or more elements, not in ascending
+            // order -- the order is data (alpn preference, address hints,
+            // tls-supported-groups preference); `mandatory` is sorted by definition
+            cat(&[u16be(1), plain.clone(), svc(9, &cat(&[u16be(4588), u16be(29), u16be(23)]))]),
+            cat(&[u16be(1), plain.clone(), svc(1, &cat(&[cs(b"h3"), cs(b"h2"), cs(b"http/1.1"), cs(b"dot")]))]),
+            cat(&[u16be(1), plain.clone(), svc(4, &[203, 0, 113, 9, 198, 51, 100, 2, 192, 0, 2, 1]),
+                  svc(6, &cat(&[vec![0x20, 1, 0x0d, 0xb8, 0, 0, 0, 0, 0, 0, 0, 0, 0, 0, 0, 9],
+                                vec![0x20, 1, 0x0d, 0xb8, 0, 0, 0, 0, 0, 0, 0, 0, 0, 0, 0, 5],
+                                vec![0x20, 1, 0x0d, 0xb8, 0, 0, 0, 0, 0, 0, 0, 0, 0, 0, 0, 1]]))]),
+            cat(&[u16be(1), plain.clone(), svc(0, &cat(&[u16be(1), u16be(3), u16be(4)])), svc(1, &cat(&[cs(b"h3"), cs(b"h2")])),
+                  svc(3, &u16be(443)), svc(4, &[198, 51, 100, 2, 192, 0, 2, 1])]),
+            cat(&[u16be(2), plain.clone(), svc(1, &cat(&[cs(b"doq"), cs(b"dot"), cs(b"h3")])), svc(3, &u16be(853)),
+                  svc(4, &[203, 0, 113, 1, 192, 0, 2, 7, 198, 51, 100, 3]), svc(9, &cat(&[u16be(65535), u16be(256), u16be(1), u16be(25497)]))]),
+            // unknown keys whose number contains the digit 9
+            cat(&[u16be(1), plain.clone(), svc(129, b"abc"), svc(65289, b"x")]),
         ] });
     }
     // unknown type: RFC 3597 generic form
